@@ -26,8 +26,9 @@ Definition sres (A : Type) : Type := (option err * A)%type.
 Definition ok {A} (a : A) : sres A := (None, a).
 Definition fail {A} (e : err) (a : A) : sres A := (Some e, a).
 
-(** default_field_sort_key: [x.lower()] of the field name *)
-Definition sort_key (f : field) : str := lower (f_name f).
+(** sort_fields(key=...): the key functions are the family [sortkey] of
+    Repro/StructSort.v ([KDefault] = default_field_sort_key, [x.lower()] of the
+    field name); [sort_fields_by k] = sorted(fields, key=lambda f: key(f.field_name)) *)
 
 (** * Deb822NoDuplicateFieldsParagraphElement over OrderedSet
 
@@ -90,8 +91,9 @@ Definition nd_order_rel (after : bool) (fs : list field) (k r : key) : sres (lis
   end.
 
 (** sort_fields: the last field gets its newline, then
-    OrderedSet(sorted(self._kvpair_order, key=key)) *)
-Definition nd_sort (fs : list field) : list field := sort_by sort_key (map_last add_nl fs).
+    OrderedSet(sorted(self._kvpair_order, key=key)); the elements of _kvpair_order
+    are the field names as spelled in the fields *)
+Definition nd_sort (k : sortkey) (fs : list field) : list field := sort_fields_by k (map_last add_nl fs).
 
 (** * Deb822DuplicateFieldsParagraphElement *)
 
@@ -260,10 +262,11 @@ Definition d_order_rel (after : bool) (d : dpara) (k r : key) : sres dpara :=
       end
   end.
 
-(** sort_fields: newline on the last field, sorted(...) by the lower-cased name,
-    then both orders are rebuilt by _init_kvpair_fields *)
-Definition d_sort (d : dpara) : dpara :=
-  let fs := sort_by sort_key (map snd (d_ensure_nl (d_order d))) in
+(** sort_fields: newline on the last field, sorted(self._kvpair_order, key=_actual_key)
+    with _actual_key(kvpair) = key(kvpair.field_name), then both orders are rebuilt
+    by _init_kvpair_fields *)
+Definition d_sort (k : sortkey) (d : dpara) : dpara :=
+  let fs := sort_fields_by k (map snd (d_ensure_nl (d_order d))) in
   init_kvpairs fs (mkD [] [] (d_next d)).
 
 (** * Either class *)
@@ -280,8 +283,8 @@ Definition p_order_rel (after : bool) (p : para) (k r : key) : sres para :=
   | PN fs => lift_pn (nd_order_rel after fs k r)
   | PD d => lift_pd (d_order_rel after d k r)
   end.
-Definition p_sort (p : para) : sres para :=
-  match p with PN fs => ok (PN (nd_sort fs)) | PD d => ok (PD (d_sort d)) end.
+Definition p_sort (k : sortkey) (p : para) : sres para :=
+  match p with PN fs => ok (PN (nd_sort k fs)) | PD d => ok (PD (d_sort k d)) end.
 
 (** operations of Doc.v that either succeed or leave the paragraph as it was *)
 Definition lift_res (f : para -> result para) (p : para) : sres para :=
@@ -385,7 +388,7 @@ Inductive sop :=
 | SLast (j : nat) (k : key)
 | SBefore (j : nat) (k r : key)
 | SAfter (j : nat) (k r : key)
-| SSort (j : nat)                               (* sort_fields() *)
+| SSort (j : nat) (sk : sortkey)                (* sort_fields(key=sk) *)
 | SSet (j : nat) (k : key) (v : str)            (* p[k] = v *)
 | SDel (j : nat) (k : key)                      (* del p[k] *)
 | SAppend (kvs : list (str * str))              (* f.append(new paragraph) *)
@@ -410,7 +413,7 @@ Definition s_step (d : doc) (o : sop) : sres doc :=
   | SLast j k => update_para_s d j (fun p => p_order_last p k)
   | SBefore j k r => update_para_s d j (fun p => p_order_rel false p k r)
   | SAfter j k r => update_para_s d j (fun p => p_order_rel true p k r)
-  | SSort j => update_para_s d j p_sort
+  | SSort j sk => update_para_s d j (p_sort sk)
   | SSet j k v => update_para_s d j (lift_res (fun p => setitem p k v))
   | SDel j k => update_para_s d j (lift_res (fun p => p_remove p k))
   | SAppend kvs =>
